@@ -608,8 +608,8 @@ def locate(fn, loc):
         hits = [n for n in ast.walk(fn) if isinstance(n, ast.Compare) and any(isinstance(o, (ast.Is, ast.IsNot)) for o in n.ops)
                 and not all(isinstance(c, ast.Constant) and c.value is None for c in n.comparators)]
         return ast.copy_location(ast.Constant(len(hits) >= 1), fn)
-    if kind == "for_iter":
-        # ("for_iter", loop variable, nth): the iterable of the nth (source order) `for <loop variable> in <expr>`
+    if kind == "for_iter_of":
+        # ("for_iter_of", loop variable, nth): the iterable of the nth (source order) `for <loop variable> in <expr>`
         hits = sorted((n for n in ast.walk(fn) if isinstance(n, ast.For) and ast.unparse(n.target) == loc[1]), key=lambda n: (n.lineno, n.col_offset))
         if len(hits) <= loc[2]:
             raise Fail("%s: no `for %s in …` loop #%d" % (fn.name, loc[1], loc[2]), fn)
